@@ -39,15 +39,16 @@ class Lock:
 
 # ------------------------------------------------------------------ T2: extraction
 
-def build_go_tool(name, tags=None):
+def build_go_tool(name, tags=None, race=False):
     """go build /verif/<name> -> /verif/bin/<name> (from source on every run; the Go build cache makes it cheap)"""
     os.makedirs(BIN, exist_ok=True)
     src = os.path.join(VERIF, name)
     if name == "harness":
         # the harness module replaces the library by /repo/go: its go.sum is the repo's
         shutil.copyfile(os.path.join(REPO, "go", "go.sum"), os.path.join(src, "go.sum"))
-    cmd = ["go", "build"] + (["-tags", tags] if tags else []) + ["-o", os.path.join(BIN, name), "."]
-    with Lock("gobuild-" + name):
+    out_name = name + ("-race" if race else "")
+    cmd = ["go", "build"] + (["-race"] if race else []) + (["-tags", tags] if tags else []) + ["-o", os.path.join(BIN, out_name), "."]
+    with Lock("gobuild-" + out_name):
         rc, out = sh(cmd, cwd=src, env=GOENV, timeout=900)
     return rc == 0, out
 
